@@ -25,6 +25,7 @@ type outcomeSpec struct {
 	ExcValue *idl.V            `json:"exc_value,omitempty"`
 	AppType  int32             `json:"app_type,omitempty"`
 	RespHdr  map[string]string `json:"resp_headers,omitempty"`
+	Onward   bool              `json:"onward,omitempty"`
 	// ExcID is the field id the IDL gives the raised exception in the method's throws list: the id
 	// it must travel under in the result struct.
 	ExcID int `json:"-"`
